@@ -33,7 +33,7 @@ OUTSIDE = {"bk": "éü€字", "utf-8": "", "koi8-r": "éü€字", "latin-1": "
 
 def plan(tier, seed):
     n = 16 if tier == "quick" else 48
-    total = 4000 if tier == "quick" else 300000
+    total = 12000 if tier == "quick" else 300000
     return [{"part": i, "parts": n, "seed": seed, "tier": tier, "count": total // n} for i in range(n)]
 
 
@@ -197,6 +197,15 @@ def gen_random(rnd):
         aux["tail6.mac"] = apm.SrcFile("tail6.mac", stmts[k:])
         stmts = stmts[:k] + [apm.include("tail6.mac")]
         tags.append(f"included-tail|{charset}")
+    elif r_lay < 0.55 and len(stmts) > 5:
+        # three or four source files linked one after the other: each starts at whatever address (and parity) the files before it end on
+        for nm, v in consts.items():
+            stmts.insert(rnd.randrange(1, len(stmts) + 1), apm.assign(nm, apm.num(v), extern=True))
+        nf = rnd.choice([3, 3, 4])
+        cuts = sorted(rnd.sample(range(1, len(stmts)), nf - 1))
+        parts = [stmts[a:b] for a, b in zip([0] + cuts, cuts + [len(stmts)])]
+        tags.append(f"linked-files|{nf}|{charset}")
+        return apm.Program([apm.SrcFile(f"f{i}.mac", part) for i, part in enumerate(parts)], charset=charset), tags
     for nm, v in consts.items():
         stmts.insert(rnd.randrange(1, len(stmts) + 1), apm.assign(nm, apm.num(v)))
     return apm.Program([apm.SrcFile("f0.mac", stmts)], aux=aux, charset=charset), tags
